@@ -475,6 +475,7 @@ func payloadValidated(facts []Atom, field string) bool {
 func ruleNoWriteAfterFailedWrite(c *Ctx, rid string) {
 	c.rule(rid, "no SetDeadline/SetWriteDeadline is called on a client connection anywhere in the framework while the request loop continues after a failed reply write (a timed-out partial write followed by further replies corrupts the frame stream)")
 	var sites []ssa.Instruction
+	closedAfter := 0
 	for _, fn := range c.P.RepoFuncs(pkgRedis) {
 		if !inFramework(fn) {
 			continue
@@ -491,13 +492,18 @@ func ruleNoWriteAfterFailedWrite(c *Ctx, rid string) {
 					recv = cc.Args[0]
 				}
 				if recv != nil && (isConnLikeType(recv.Type()) || isConnLikeType(strip(recv).Type())) {
+					if closedOnEveryWayOut(ins, recv) {
+						closedAfter++
+						return // the connection is closed before the function returns: it is never served afterwards
+					}
 					sites = append(sites, ins)
 				}
 			}
 		})
 	}
+	c.count("write-deadlines-on-connections-closed-at-once", closedAfter)
 	if len(sites) == 0 {
-		c.ok(rid, "no-write-deadline", "", "no deadline covering writes is armed on client connections: a failed write is final")
+		c.ok(rid, "no-write-deadline", "", "no deadline covering writes is armed on a client connection that is served afterwards: a failed write is final")
 		return
 	}
 	// deadlines exist: the loop must not write again after a failed write
@@ -543,4 +549,50 @@ func ruleNoWriteAfterFailedWrite(c *Ctx, rid string) {
 			c.ok(rid, key, c.P.instrPos(s), "write deadline armed; a failed reply write ends the request loop")
 		}
 	}
+}
+
+// closedOnEveryWayOut: every path from ins to a return of its function passes a Close() call on
+// the same connection (the deadline dies with the connection: a refusal written to a client
+// that is then dropped).
+func closedOnEveryWayOut(ins ssa.Instruction, conn ssa.Value) bool {
+	want := connObjectOf(conn)
+	isClose := func(x ssa.Instruction) bool {
+		cc := callCommon(x)
+		if cc == nil || !strings.HasSuffix(calleeName(cc), ".Close") {
+			return false
+		}
+		recv := cc.Value
+		if !cc.IsInvoke() && len(cc.Args) > 0 {
+			recv = cc.Args[0]
+		}
+		return recv != nil && connObjectOf(recv) == want
+	}
+	b0 := ins.Block()
+	start := instrIndex(ins) + 1
+	seen := map[*ssa.BasicBlock]bool{}
+	var walk func(b *ssa.BasicBlock, from int) bool
+	walk = func(b *ssa.BasicBlock, from int) bool {
+		for i := from; i < len(b.Instrs); i++ {
+			if isClose(b.Instrs[i]) {
+				return true
+			}
+			if _, isRet := b.Instrs[i].(*ssa.Return); isRet {
+				return false
+			}
+		}
+		if len(b.Succs) == 0 {
+			return false
+		}
+		for _, s := range b.Succs {
+			if seen[s] {
+				continue
+			}
+			seen[s] = true
+			if !walk(s, 0) {
+				return false
+			}
+		}
+		return true
+	}
+	return walk(b0, start)
 }
